@@ -151,6 +151,15 @@ func runC06(t *sim.T, tier string) *sim.Violation {
 				inputs = append(inputs, c06Input{1, sib.Feed.Zip(zo), fmt.Sprintf("static%d-sibling", i)})
 			}
 		}
+		// a sibling in which one member has other content of the same length and CRC-32 (caches keyed by what the
+		// archive's directory says about a member)
+		if t.Chance(1, 4) {
+			if sib, d := gen.ForgeCRCSibling(t, m.Feed, zo); sib != nil {
+				t.Logf("static%d sibling: %s", i, d)
+				t.Probe("same-crc-sibling")
+				inputs = append(inputs, c06Input{1, sib.Zip(zo), fmt.Sprintf("static%d-same-crc-sibling", i)})
+			}
+		}
 		// a sibling whose header row is a different list of cells with the same joined text (caches keyed by
 		// the header as text)
 		if t.Chance(1, 3) {
@@ -275,8 +284,29 @@ func runC06(t *sim.T, tier string) *sim.Violation {
 		inherit bool
 	}
 	ops := make([]c06Op, nOps)
+	// inputs derived from the same base (an archive and its siblings) form a group: now and then the next
+	// operation takes another member of the previous operation's group, so that siblings are parsed back to back
+	group := func(i int) string {
+		d := inputs[i].desc
+		if j := strings.IndexAny(d, "-("); j >= 0 {
+			d = d[:j]
+		}
+		return d
+	}
 	for k := range ops {
 		ops[k] = c06Op{t.Choose(len(inputs)), t.Choose(nPool), t.Chance(1, 2)}
+		if k > 0 && t.Chance(1, 3) {
+			var same []int
+			for i := range inputs {
+				if i != ops[k-1].ii && group(i) == group(ops[k-1].ii) {
+					same = append(same, i)
+				}
+			}
+			if len(same) > 0 {
+				ops[k].ii = same[t.Choose(len(same))]
+				t.Probe("siblings-back-to-back")
+			}
+		}
 		fmt.Fprintf(&seq, "%d:%d:%v;", ops[k].ii, ops[k].obj, ops[k].inherit)
 	}
 	// VERIF_C06_ORDER=reverse (set by the driver for its fresh child processes) executes the same
